@@ -80,6 +80,7 @@ def _case(draw):
         "backward": backward,
         "via_json": draw(st.integers(0, 2)) == 0,
         "reconfigure": draw(st.integers(0, 2)) == 0,
+        "ctor_rm": draw(st.booleans()),
         # the saved result may have been edited first: insert_absence_time_list(B), B overlapping the steps already present
         "insert": insert,
     }
@@ -137,7 +138,8 @@ def check(case):
     parent = case["parent"]
     k = case["k"]
     pt = parent["tasks"][k]
-    pt.update({"auto": True, "comp": None, "nf": False, "sub": {"unit_s": 60}, "prog": 0.0, "rate": 1.0, "fixw": None})
+    # (the task object may have been constructed with the other setting of its own remove_absence_time_list flag)
+    pt.update({"auto": True, "comp": None, "nf": False, "sub": {"unit_s": 60, "rm_abs": bool(case.get("ctor_rm"))}, "prog": 0.0, "rate": 1.0, "fixw": None})
     parent["deps"] = [[a, b, (kind if kind in (S.FS, S.SS) else S.FS) if b == k else kind] for a, b, kind in parent["deps"]]
     hp = S.build(parent)
     pp = hp.project
